@@ -1,2 +1,233 @@
-use serde_json::{json, Value as J};
-pub fn run_case(_case: &J) -> J { json!({}) }
+//! C31: replay a scripted history (GetAll reply + PropertiesChanged signals, chunked) against a proxy with a
+//! property cache and record what the cache, `get_property` and the property streams report.  Only records.
+//!
+//! Case: {"id":n,"mode":"yes"|"lazy","ev":[E..]}
+//!   E = {"k":"reply","snap":{"P":1,..}}                                    answer the pending GetAll
+//!     | {"k":"chg","iface":"own"|"other","src":"svc"|"stranger","path":"own"|"other","changed":{..},"inval":[..]}
+//!     | {"k":"q"}                                                           run to quiescence, observe
+//! Observation "evs": the same events in receive order plus
+//!   {"k":"ready"}            the cache reported ready (mode yes: build() returned; lazy: get_property got past ready())
+//!   {"k":"streams"}          property streams for P and Q exist from here on
+//!   {"k":"obs","cached":{"P":v|-1,..}}   cached_property::<u32> of every property at a quiescent point after ready
+//! and at the end "streams": {"P":[values reported by the stream's items],..}, "gets": {"P":{"val":v,"via_get":b},..}.
+//! Values: -1 = none, -2 = error, -3 = call still pending.  Values fetched with Properties.Get (after an invalidation / for uncached properties) are answered 901/902/903/904.
+use std::collections::HashMap;
+
+use futures_util::StreamExt;
+use serde_json::{json, Map, Value as J};
+use zbus::proxy::{CacheProperties, PropertyStream};
+use zvariant::Value;
+
+use crate::{
+    fakebus::FakeBus,
+    probe::connect,
+    sched::{quiesce, Slot},
+};
+
+pub const SVC: &str = ":1.7";
+pub const STRANGER: &str = ":1.66";
+pub const PATH: &str = "/obj";
+pub const OTHER_PATH: &str = "/other";
+pub const IFACE: &str = "com.example.I";
+pub const OTHER_IFACE: &str = "com.example.J";
+pub const PROPS_IFACE: &str = "org.freedesktop.DBus.Properties";
+pub const ALL: [&str; 4] = ["P", "Q", "U", "R"];
+
+fn live(p: &str) -> u32 {
+    match p {
+        "P" => 901,
+        "Q" => 902,
+        "U" => 903,
+        _ => 904,
+    }
+}
+
+fn dict(j: &J) -> HashMap<String, Value<'static>> {
+    j.as_object()
+        .map(|o| o.iter().map(|(k, v)| (k.clone(), Value::U32(v.as_u64().unwrap() as u32))).collect())
+        .unwrap_or_default()
+}
+
+/// Answer every pending Properties.Get with the live value; returns the property names asked for.
+fn answer_gets(bus: &mut FakeBus) -> Vec<String> {
+    let mut asked = vec![];
+    while let Some(c) = bus.take_call("Get") {
+        let (_i, p): (String, String) = c.msg.body().deserialize().expect("Get args");
+        if p == "R" {
+            bus.release(&FakeBus::error(&c, SVC, "org.freedesktop.DBus.Error.UnknownProperty", "no R"));
+        } else {
+            bus.release(&FakeBus::reply(&c, SVC, &Value::U32(live(&p))));
+        }
+        asked.push(p);
+    }
+    asked
+}
+
+pub fn run_case(case: &J) -> J {
+    let (conn, mut bus) = connect();
+    let lazy = case["mode"] == "lazy";
+    let builder = || {
+        zbus::proxy::Builder::<zbus::Proxy<'static>>::new(&conn)
+            .destination(SVC)
+            .unwrap()
+            .path(PATH)
+            .unwrap()
+            .interface(IFACE)
+            .unwrap()
+            .uncached_properties(&["U"])
+            .cache_properties(if lazy { CacheProperties::Lazily } else { CacheProperties::Yes })
+    };
+    let mut log: Vec<J> = vec![];
+    let mut proxy: Option<zbus::Proxy<'static>> = None;
+    let mut build = Slot::new(builder().build());
+    let mut streams: Vec<(&'static str, PropertyStream<'static, u32>)> = vec![];
+    let mut ready = false;
+    let mut ready_err = String::new();
+    quiesce(&mut bus, Some(&conn), &mut [&mut build], true);
+    if lazy {
+        proxy = Some(build.out.take().expect("lazy build pending").expect("lazy build failed"));
+    }
+    // lazy mode: streams first (this starts the cache task), then a get_property that has to pass ready()
+    macro_rules! make_streams {
+        () => {{
+            let p = proxy.as_ref().unwrap();
+            for n in ["P", "Q"] {
+                let mut s = Slot::new(p.receive_property_changed::<u32>(n));
+                quiesce(&mut bus, Some(&conn), &mut [&mut s], true);
+                streams.push((n, s.out.take().expect("receive_property_changed pending")));
+            }
+            log.push(json!({"k":"streams"}));
+        }};
+    }
+    let probe_proxy = if lazy {
+        make_streams!();
+        proxy.clone()
+    } else {
+        None
+    };
+    let mut ready_probe: Option<Slot<zbus::Result<u32>>> = probe_proxy.as_ref().map(|p| Slot::new(p.get_property::<u32>("R")));
+    if let Some(s) = ready_probe.as_mut() {
+        quiesce(&mut bus, Some(&conn), &mut [s], true);
+    }
+    let mut getall = bus.take_call("GetAll");
+    let getall_seen = getall.is_some();
+
+    let mut evs: Vec<J> = case["ev"].as_array().unwrap().clone();
+    evs.push(json!({"k":"q"}));
+    for e in evs.iter() {
+        match e["k"].as_str().unwrap() {
+            "reply" => {
+                if let Some(c) = getall.take() {
+                    bus.release(&FakeBus::reply(&c, SVC, &dict(&e["snap"])));
+                }
+                log.push(e.clone());
+            }
+            "chg" => {
+                let iface = if e["iface"] == "own" { IFACE } else { OTHER_IFACE };
+                let src = if e["src"] == "svc" { SVC } else { STRANGER };
+                let path = if e["path"] == "own" { PATH } else { OTHER_PATH };
+                let inval: Vec<String> = e["inval"].as_array().map(|a| a.iter().map(|x| x.as_str().unwrap().to_string()).collect()).unwrap_or_default();
+                bus.release(&FakeBus::signal(src, None, path, PROPS_IFACE, "PropertiesChanged", &(iface, dict(&e["changed"]), inval)));
+                log.push(e.clone());
+            }
+            "q" => {
+                if lazy {
+                    match ready_probe.as_mut() {
+                        Some(s) => quiesce(&mut bus, Some(&conn), &mut [s], false),
+                        None => quiesce(&mut bus, Some(&conn), &mut [], false),
+                    };
+                    if !ready {
+                        // past ready(): either the Get for R is on the bus, or the call already failed
+                        let asked = answer_gets(&mut bus);
+                        let done = ready_probe.as_ref().map(|s| s.done()).unwrap_or(true);
+                        if asked.iter().any(|p| p == "R") || done {
+                            ready = true;
+                            log.push(json!({"k":"ready"}));
+                            if let Some(s) = ready_probe.as_mut() {
+                                quiesce(&mut bus, Some(&conn), &mut [s], false);
+                            }
+                        }
+                    }
+                } else {
+                    if proxy.is_none() {
+                        quiesce(&mut bus, Some(&conn), &mut [&mut build], false);
+                        if let Some(r) = build.out.take() {
+                            match r {
+                                Ok(p) => {
+                                    proxy = Some(p);
+                                    ready = true;
+                                    log.push(json!({"k":"ready"}));
+                                    make_streams!();
+                                }
+                                Err(e) => ready_err = e.to_string(),
+                            }
+                        }
+                    } else {
+                        quiesce(&mut bus, Some(&conn), &mut [], false);
+                    }
+                }
+                if ready {
+                    let p = proxy.as_ref().unwrap();
+                    let mut m = Map::new();
+                    for n in ALL {
+                        let v = match p.cached_property::<u32>(n) {
+                            Ok(Some(v)) => json!(v),
+                            Ok(None) => json!(-1),
+                            Err(_) => json!(-2),
+                        };
+                        m.insert(n.to_string(), v);
+                    }
+                    log.push(json!({"k":"obs","cached":m}));
+                }
+                log.push(json!({"k":"q"}));
+            }
+            k => panic!("unknown event kind {k}"),
+        }
+    }
+
+    // final observations: what the streams report, then get_property of every property
+    let mut st_out = Map::new();
+    let mut gets = Map::new();
+    if ready {
+        for (n, s) in streams.iter_mut() {
+            let mut items: Vec<J> = vec![];
+            for _ in 0..3 {
+                let mut nx = Slot::new(s.next());
+                quiesce(&mut bus, Some(&conn), &mut [&mut nx], false);
+                let Some(Some(item)) = nx.out.take() else { break };
+                let mut g = Slot::new(item.get());
+                quiesce(&mut bus, Some(&conn), &mut [&mut g], false);
+                if !g.done() {
+                    answer_gets(&mut bus);
+                    quiesce(&mut bus, Some(&conn), &mut [&mut g], false);
+                }
+                items.push(match g.out.take() {
+                    Some(Ok(v)) => json!(v),
+                    Some(Err(_)) => json!(-2),
+                    None => json!(-3),
+                });
+            }
+            st_out.insert(n.to_string(), J::Array(items));
+        }
+        let p = proxy.as_ref().unwrap();
+        for n in ["P", "Q", "U"] {
+            let mut g = Slot::new(p.get_property::<u32>(n));
+            quiesce(&mut bus, Some(&conn), &mut [&mut g], false);
+            let mut via = false;
+            if !g.done() {
+                via = answer_gets(&mut bus).iter().any(|x| x == n);
+                quiesce(&mut bus, Some(&conn), &mut [&mut g], false);
+            }
+            let val = match g.out.take() {
+                Some(Ok(v)) => json!(v),
+                Some(Err(_)) => json!(-2),
+                None => json!(-3),
+            };
+            gets.insert(n.to_string(), json!({"val":val,"via_get":via}));
+        }
+    }
+    json!({
+        "ev":"Cache","id":case["id"],"mode":case["mode"],"evs":log,"ready":ready,"ready_err":ready_err,
+        "getall_seen":getall_seen,"streams":st_out,"gets":gets,
+    })
+}
